@@ -57,6 +57,7 @@ WRITER_OPTS = st.fixed_dictionaries({}, optional={
     "header_width": st.sampled_from([60, 40, 80]),
     "data_section_header": st.sampled_from(["~ASCII", "~A", "~A log data"]),
     "mnemonics_header": st.booleans(),
+    "column_fmt": st.sampled_from([{"0": "%.0f"}, {"0": "%.1f"}, {"0": "%.7f"}, {"0": "%.3e"}]),
 })
 
 
